@@ -304,7 +304,8 @@ def run_c20(chk, prog):
             chk.unproven("C20.O1", "cp:closure-arg", "the argument of reconfigure is not a closure literal (%s)" % (fmt_term(cl) if cl else "?"), where)
         d0 = known_val(cons, ("discr", norm(rec[3])))
         if d0 == 1:
-            ok = names == ["reconfigure"] and rk == "Err" and is_err_of(rv, rec[3])
+            # (`refused => refused`: handing back the failed result itself is returning its error)
+            ok = names == ["reconfigure"] and ((rk == "Err" and is_err_of(rv, rec[3])) or norm(p.value) == norm(rec[3]))
             chk.ob("C20.O2", "a reconfigure error is returned and nothing else is done", ok, key="cp:reconfigure-err", where=where, detail="%s -> %s" % (names, fmt_term(p.value)))
             continue
         if names[1:2] != ["set_timeout"]:
@@ -318,7 +319,7 @@ def run_c20(chk, prog):
             chk.ob("C20.O2", "the result of set_timeout is returned as it is (its error, or Ok(()))", True, where=where)
             continue
         if d1 == 1:
-            ok = rk == "Err" and is_err_of(rv, st[3]) and len(names) == 2
+            ok = ((rk == "Err" and is_err_of(rv, st[3])) or norm(p.value) == norm(st[3])) and len(names) == 2
             chk.ob("C20.O2", "a set_timeout error is returned", ok, key="cp:timeout-err", where=where, detail=fmt_term(p.value))
         else:
             ok = rk == "Ok" and len(names) == 2 and d0 == 0 and d1 == 0
@@ -403,12 +404,16 @@ def run_c20(chk, prog):
             chk.ob("C20.O3", "%s::try_new applies a non-zero read timeout (%s ms) to its own port argument" % (short, ms), okp and ms is not None and ms > 0, key="ctor:timeout:%s" % adt, where=w2)
             d = known_val(norm_cons(p.cons), ("discr", norm(c[3])))
             if d == 1:
-                ok = rk == "Err" and is_err_of(rv, c[3]) and not built
-                chk.ob("C20.O3", "%s::try_new returns the configuration error and constructs nothing" % short, ok, key="ctor:err:%s" % adt, where=w2, detail=fmt_term(p.value))
+                # (an object built beforehand and dropped on this path is not handed out: what counts is that the error is what is returned)
+                ok = rk == "Err" and is_err_of(rv, c[3])
+                chk.ob("C20.O3", "%s::try_new returns the configuration error, no object" % short, ok, key="ctor:err:%s" % adt, where=w2, detail=fmt_term(p.value))
             else:
                 ok = d == 0 and rk == "Ok" and rv[0] == "adt" and rv[1] == adt
+                # the object handed out holds the port configure_port worked on: built afterwards from it, or built first and configured in place
                 before = p.trace.index(built[0]) > p.trace.index(c) if built else False
-                chk.ob("C20.O3", "%s is constructed only after configure_port returned Ok" % short, ok and before, key="ctor:ok:%s" % adt, where=w2, detail=fmt_term(p.value))
+                in_place = ok and c[2][0][0] == "ref" and c[2][0][1][0] == "loc" and len(c[2][0][1]) > 3 and bool(c[2][0][1][3]) \
+                    and any(isinstance(x, tuple) and x and x[0] == "sym" and str(x[1]).startswith("mut:configure_port") for x in rv[4])
+                chk.ob("C20.O3", "%s handed out only after configure_port returned Ok on its port" % short, ok and (before or in_place), key="ctor:ok:%s" % adt, where=w2, detail=fmt_term(p.value))
         chk.floor("C20.O3", "%s::try_new returning paths" % adt.split("::")[-1], nr, 2)
         chk.note_analysed("functions", [f["name"]])
     chk.note_analysed("functions", [cp["name"]])
@@ -682,7 +687,8 @@ def run_c17(chk, prog):
     # controller side: kinds sent with a Some(..) expectation or whose reply is inspected
     try:
         import p_ctrl
-        ck = p_ctrl.expects_reply_kinds(prog)
-        chk.ob("C17.b", "kinds for which the controller expects a reply (%s) == kinds the serial bus reads a reply for" % sorted(ck), ck == read_kinds, key="agree:controller-vs-serial", where=loc(sfn["span"]))
+        for lo in (False, True):
+            ck = p_ctrl.expects_reply_kinds(prog, lo)
+            chk.ob("C17.b", "kinds for which the controller expects a reply (%s) == kinds the serial bus reads a reply for%s" % (sorted(ck), " (logging on)" if lo else ""), ck == read_kinds, key="agree:controller-vs-serial", where=loc(sfn["span"]))
     except ImportError:
         chk.assumptions.append("controller-side leg of the three-way agreement is checked by C10 once its engine is present")
